@@ -3,6 +3,11 @@
 # kind: rapid (default) | exhaustive | plain
 # quick/thorough: checks = total rapid cases over all shards; shards = processes; timeout = seconds per shard
 PARTS = {
+    "C09": [
+        {"test": "TestVfC09Thresholds",
+         "quick": {"checks": 4000, "shards": 4, "timeout": 600},
+         "thorough": {"checks": 300000, "shards": 16, "timeout": 2400}},
+    ],
     "C08": [
         {"test": "TestVfC08Backoff",
          "quick": {"checks": 6000, "shards": 4, "timeout": 600},
@@ -60,6 +65,14 @@ PARTS = {
 LEVEL = {}  # default: exploration
 
 RULES = {
+    "C09": "direct-driven gossipsub node with peer scoring through the application score, peer exchange on, optional gater, flood publish "
+           "on/off, joined or fan-out only, small or large mesh; thresholds accepted by validation; 2-8 peers (all protocol versions, "
+           "direct or not, inbound/outbound) whose scores are drawn from {each threshold, its two float neighbours, 0, +-0.5, +-1, "
+           "+-100}; <= 40 probes: forwarded publish, GRAFT (alone or mixed with payload), IHAVE, IWANT, heartbeat, local publish (mesh / "
+           "flood / fan-out), PRUNE with peer-exchange records (valid, other signer, garbage, absent, already connected), score change, "
+           "gater throttling driven through its tracer interface. Each probe's observable effect is compared with the statement's table "
+           "in both directions (what must not happen below a threshold, what must happen at or above it). Non-trivial: a probed peer's "
+           "score is exactly on or adjacent to a threshold. Distinct = case JSON.",
     "C07": "direct-driven gossipsub node with manual heartbeats; rapid draws a parameter set accepted by validate() (D<=8, incl. the all-zero "
            "bootstrapper set), optional scoring through the application score, direct peers, and a history (<= ~50 ops, <= 36 peers) of "
            "arrivals/departures with direction and protocol version, remote subscribe/unsubscribe/GRAFT/PRUNE (also in bulk), joins "
@@ -113,6 +126,8 @@ RULES = {
 }
 
 ASSUMPTIONS = {
+    "C09": ["scores are the application-specific score only (all other weights zero), so the harness knows each peer's exact score",
+            "the router's IHAVE flood protection counts every control RPC of a peer per heartbeat; the positive IHAVE assertion is made only inside that budget"],
     "C07": ["scores are read from the router's scorer at heartbeat time and treated as an input (C10 checks the scorer itself)",
             "back-off entries are an input too (C08 checks them); expired-but-unswept entries make a candidate optional, not mandatory",
             "negative degrees and OpportunisticGraftTicks = 0 are outside the domain (no documented meaning)"],
@@ -134,6 +149,13 @@ ASSUMPTIONS = {
 HOOK_COMMITS = ["407c3ed"]
 
 META = {
+    "C09": {
+        "text": "Property-based testing with boundary-value score pools: every side of every threshold including equality and the adjacent "
+                "floats is probed with every RPC kind; finds < vs <= mistakes, missing direct exemptions, PX leaks, skipped record checks "
+                "and a gater that suppresses control.",
+        "note": "Trusts the stub host, libp2p record sealing (to build PX records), synctest; gater verdicts are random by design, so only control handling and the verdict set are asserted under throttling.",
+        "technique": "stateful property-based testing (rapid) with boundary-value generation against a decision table",
+    },
     "C07": {
         "text": "Stateful property-based testing of the real router on a stub host: tens to hundreds of thousands of generated histories, each "
                 "heartbeat judged by a validity predicate that is independent of the random peer selection; finds off-by-ones in degree "
